@@ -25,12 +25,13 @@ pub open spec fn lists_wf(domains: Option<&[Hash]>, union: Option<Hash>) -> bool
 }
 
 // "the initiator-domain list (a listed domain covers its subdomains, '~' entries exclude, exclusions win)": the request carries the
-// hashes of its source host and of every parent domain; a rule with a list and a request without a known source are not compared
+// hashes of its source host and of every parent domain.  "A rule applies to a request only if every option on it is satisfied": a
+// request without a known source comes from none of the listed domains (so a positive list is not satisfied - fix for the
+// bucketing-dependent verdicts found by the rule-by-rule differential) and from none of the excluded ones
 pub open spec fn some_source_in(src: Seq<Hash>, list: Seq<Hash>) -> bool { exists|i: int| 0 <= i < src.len() && list.contains(#[trigger] src[i]) }
 pub open spec fn domains_ok(req: request::Request, inc: Option<&[Hash]>, exc: Option<&[Hash]>) -> bool {
-    req.source_hostname_hashes is None
-    || ((inc is Some ==> some_source_in(req.source_hostname_hashes->Some_0@, inc->Some_0@))
-        && (exc is Some ==> !some_source_in(req.source_hostname_hashes->Some_0@, exc->Some_0@)))
+    (inc is Some ==> req.source_hostname_hashes is Some && some_source_in(req.source_hostname_hashes->Some_0@, inc->Some_0@))
+    && (exc is Some ==> req.source_hostname_hashes is None || !some_source_in(req.source_hostname_hashes->Some_0@, exc->Some_0@))
 }
 // everything but the domain lists: not a badfilter marker, type allowed, scheme allowed, party allowed
 pub open spec fn plain_options_ok(mask: NetworkFilterMask, req: request::Request) -> bool {
